@@ -15,7 +15,10 @@ use std::path::{Path, PathBuf};
 use std::sync::Mutex;
 use std::time::Instant;
 
-pub const VERIF_ROOT: &str = "/verif";
+/// Root of the verification tree: the directory of the `check` wrapper (exported as VERIF_ROOT), /verif by default.
+pub fn verif_root() -> String {
+    std::env::var("VERIF_ROOT").unwrap_or_else(|_| "/verif".to_string())
+}
 pub const REPO_ROOT: &str = "/repo";
 
 #[derive(Clone, Copy, PartialEq, Eq, Debug)]
@@ -254,7 +257,7 @@ pub fn match_known_in(known: &[KnownFinding], fail: &Fail) -> Option<KnownFindin
 }
 
 pub fn load_known_findings() -> Vec<KnownFinding> {
-    let p = Path::new(VERIF_ROOT).join("known_findings.json");
+    let p = Path::new(&verif_root()).join("known_findings.json");
     match std::fs::read_to_string(&p) {
         Ok(s) => serde_json::from_str(&s).expect("known_findings.json must parse"),
         Err(_) => vec![],
@@ -642,12 +645,12 @@ pub trait Prop: Sync {
 }
 
 fn work_dir(prop: &str) -> PathBuf {
-    let p = Path::new(VERIF_ROOT).join("target/work").join(prop);
+    let p = Path::new(&verif_root()).join("target/work").join(prop);
     let _ = std::fs::create_dir_all(&p);
     p
 }
 pub fn scratch_dir(prop: &str, worker: usize) -> PathBuf {
-    let p = Path::new(VERIF_ROOT)
+    let p = Path::new(&verif_root())
         .join("target/work")
         .join(prop)
         .join(format!("w{}-{}", worker, std::process::id()));
@@ -699,7 +702,7 @@ pub fn replay_main(prop: &dyn Prop, path: &Path) -> i32 {
 
 /// Regression tier: every committed replay file of this property must hold.
 fn regression_tier(prop: &dyn Prop, stats: &mut Stats) -> Vec<(PathBuf, String)> {
-    let dir = Path::new(VERIF_ROOT).join("replays").join(prop.id());
+    let dir = Path::new(&verif_root()).join("replays").join(prop.id());
     let mut bad = vec![];
     let Ok(rd) = std::fs::read_dir(&dir) else { return bad };
     let mut files: Vec<PathBuf> = rd
@@ -770,8 +773,27 @@ pub fn parent_main(prop: &dyn Prop, tier: Tier, seed: u64, workers_req: usize) -
     let mut nontrivial: BTreeSet<u64> = BTreeSet::new();
     let mut inconclusive: Vec<String> = vec![];
     let mut failures: Vec<Failure> = vec![];
+    // watchdog: a run that exceeds its wall-clock budget is INCONCLUSIVE (exit 2), never a violation
+    let budget_s: u64 = std::env::var("VERIF_DEADLINE_S").ok().and_then(|s| s.parse().ok()).unwrap_or(match tier {
+        Tier::Quick => 1500,
+        Tier::Thorough => 5 * 3600,
+    });
+    let deadline = Instant::now() + std::time::Duration::from_secs(budget_s);
     for (w, out, mut child) in children {
-        let status = child.wait().expect("wait worker");
+        let status = loop {
+            match child.try_wait().expect("wait worker") {
+                Some(st) => break st,
+                None => {
+                    if Instant::now() > deadline {
+                        let _ = child.kill();
+                        let st = child.wait().expect("wait worker");
+                        inconclusive.push(format!("worker {} exceeded the wall-clock budget of {} s and was stopped (hang or overload; inconclusive)", w, budget_s));
+                        break st;
+                    }
+                    std::thread::sleep(std::time::Duration::from_millis(20));
+                }
+            }
+        };
         let stats: Option<Stats> = std::fs::read(&out).ok().and_then(|b| serde_json::from_slice(&b).ok());
         match stats {
             Some(s) if status.success() => {
@@ -811,7 +833,8 @@ pub fn parent_main(prop: &dyn Prop, tier: Tier, seed: u64, workers_req: usize) -
                     .ok()
                     .and_then(|b| serde_json::from_slice::<Value>(&b).ok());
                 let desc = format!("worker {} died with {:?}", w, status);
-                if meta.dead_worker_is_violation {
+                let by_watchdog = Instant::now() > deadline;
+                if meta.dead_worker_is_violation && !by_watchdog {
                     if let Some(cur) = cur {
                         failures.push(Failure {
                             variant: cur["variant"].as_str().unwrap_or("").to_string(),
@@ -831,7 +854,7 @@ pub fn parent_main(prop: &dyn Prop, tier: Tier, seed: u64, workers_req: usize) -
 
     // 3. failures -> replay files
     let known = load_known_findings();
-    let new_dir = Path::new(VERIF_ROOT).join("replays").join(id).join("new");
+    let new_dir = Path::new(&verif_root()).join("replays").join(id).join("new");
     let mut seen_sig = BTreeSet::new();
     // smallest case first, one replay per signature
     failures.sort_by_key(|f| f.case.to_string().len());
@@ -886,7 +909,7 @@ pub fn parent_main(prop: &dyn Prop, tier: Tier, seed: u64, workers_req: usize) -
                 }
             }
             if fz["crashing_processes"].as_u64().unwrap_or(0) > 0 && fz["violations"].as_array().map(|a| a.is_empty()).unwrap_or(true) {
-                violations.push((format!("{}/target/fuzzwork/{}", VERIF_ROOT, id), "libFuzzer campaign: a fuzz process crashed (see the artifact directory)".to_string()));
+                violations.push((format!("{}/target/fuzzwork/{}", verif_root(), id), "libFuzzer campaign: a fuzz process crashed (see the artifact directory)".to_string()));
             }
             coverage["fuzz"] = fz;
         }
@@ -905,7 +928,7 @@ pub fn parent_main(prop: &dyn Prop, tier: Tier, seed: u64, workers_req: usize) -
         "wall_s": wall,
         "violations": violations.len(),
     });
-    let evdir = Path::new(VERIF_ROOT).join("evidence");
+    let evdir = Path::new(&verif_root()).join("evidence");
     let _ = std::fs::create_dir_all(&evdir);
     let evtmp = evdir.join(format!("{}.json.tmp", id));
     std::fs::write(&evtmp, serde_json::to_vec_pretty(&evidence).unwrap()).unwrap();
